@@ -2,7 +2,7 @@ SPECIFICATION Spec
 CONSTANTS
   MaxSys = 6
   MaxChan = 2
-  Depth = 14
+  Depth = 18
   Rich = TRUE
   StartSelected = TRUE
 INVARIANTS Dump
